@@ -68,4 +68,61 @@ PROPS = {
         assumptions=COMMON_ASSUME,
         partial=[],
     ),
+    "C03": dict(
+        level="proof",
+        trusted_base=[KERNEL, CORR,
+                      "the textbook reference lean/LdpcV/Spec/BPRef.lean (stateless flooding / layered schedules with name-based message lookup) is the "
+                      "specification; the contract `WellBehaved` / `WellBehavedLayer` (lean/LdpcV/Spec/DecoderSpec.lean) is what 'any arithmetic' means: rules emit "
+                      "exactly one message per incoming message, addressed to its source (any order) — proved for the 16 8-bit arithmetics (C05.i8_wellBehaved)",
+                      "checker-supplied arithmetics IntMinSum and Affine exist twice (harness/src/arith_test.rs, lean/LdpcV/Model/ArithTest.lean); their agreement is "
+                      "itself checked by the trace comparison"],
+        rule=("the generic Rust decoders flooding::Decoder<Trace<A>> / horizontal_layered::Decoder<Trace<A>> with checker-supplied arithmetics A in {IntMinSum, "
+              "Affine (asymmetric: every value depends on source index, slot position and degree; emits in reverse order)}: 1500 (40000 thorough) (matrix <= 30/120 "
+              "columns, LLR vector, limit) triples; compared exactly: the FULL call trace (order of check / variable / layer rule calls, every incoming list with "
+              "sources, every emitted list, returned LLRs) and the final verdict/word/iterations against the textbook reference, plus the buffer model against the "
+              "reference; non-trivial = at least one full iteration executed; distinct = distinct canonical input"),
+        assumptions=COMMON_ASSUME,
+        partial=["exactness clause (sum-product on cycle-free matrices equals the true posterior LLRs after diameter iterations) is NOT proved; see DESIGN.md C03"],
+    ),
+    "C10": dict(
+        level="proof",
+        trusted_base=[KERNEL, CORR,
+                      "arithmetic scratch vectors (phis/tanhs/minstars) are not in the model (pure `Arith` record); their statelessness is covered by the "
+                      "implementation-vs-implementation comparison (reused object vs fresh object, exact, all 36 names) and, for the 20 8-bit names, by the exact model"],
+        rule=("all 36 names x 40 (1200 thorough) histories of 2-20 decode calls on ONE decoder object mixing successes, failures, limits {0,1,2,3,5,50}, all LLR "
+              "classes, matrices incl. the mixed-degree family (high-degree then low-degree checks); every call's result is compared with a freshly built decoder's "
+              "result for the same arguments (exact) and, for the 20 8-bit names, with the model run as one history; non-trivial = the history contains both a "
+              "success and a failure; distinct = distinct canonical input"),
+        assumptions=COMMON_ASSUME,
+        partial=[],
+    ),
+    "C04": dict(
+        level="proof",
+        model_timeout=3600,
+        trusted_base=[KERNEL, CORR,
+                      "8-bit rules: exact integer model lean/LdpcV/Model/ArithI8.lean (i8/i16 as Int with explicit overflow checks); the correction table is a "
+                      "literal in the model and is compared entry by entry with the table read from the Debug text of every Rust arithmetic object",
+                      "float rules (phi, tanh, min*-approx, A-Min* in f32/f64): real-number semantics only; IEEE rounding is not bounded by any theorem"],
+        rule=("8-bit: all 16 types: degree 2 EXHAUSTIVE (255^2 vectors each), degree 3 sampled 1e5 (2e6 thorough), degrees 4-30 random incl. boundary vectors "
+              "(all +-127, ties, zeros, hard-limit thresholds 99/100/101), degrees 0/1 (documented panic); exact comparison of the emitted (dest, value) sequence "
+              "with the model and evaluation of the C04 predicate (one message per neighbour, sign rule, magnitude <= smallest other, hard-limit promotion, range) on "
+              "the implementation output; non-trivial = degree >= 2; distinct = distinct canonical input"),
+        assumptions=COMMON_ASSUME,
+        partial=["float arithmetics: tanh-domain comparison of the 8 float types and the real-semantics theorems are in preparation (see DESIGN.md C04)",
+                 "table-vs-real clause (|table[t] - 8 ln(1+e^(-t/8))| <= 1/2) not yet proved"],
+    ),
+    "C05": dict(
+        level="proof",
+        trusted_base=[KERNEL, CORR,
+                      "f64 inputs of the quantiser are modelled exactly on the IEEE-754 bit pattern (8*x exact, round half away from zero, saturating `as i8`, NaN -> 0)",
+                      "float variable rules (sum / total minus own) are not modelled"],
+        rule=("all 16 8-bit types: quantiser on special values (+-0, +-inf, NaN payloads, subnormals, 1e300, MAX), the six doubles around k/8 and (k+1/2)/8 for "
+              "k in [-131,131], random magnitudes of every class and arbitrary random bit patterns; clip on ~9600 i16 values incl. all |x| <= 130; variable rule "
+              "with degrees 0..200 (257 thorough) incl. all-127 / all--127 / alternating vectors and the overflow boundary (257 ok, 258+ must panic on both sides); "
+              "layered primitive on random states inside the envelope and on envelope-boundary states; exact comparison with the model + the saturating-sum and "
+              "layered-equals-flooding predicates evaluated on the implementation output; non-trivial = degree >= 1 (var) / >= 2 (layer); distinct = distinct input"),
+        assumptions=COMMON_ASSUME,
+        partial=["float types: sum-then-subtract rule is not modelled (bit-comparison planned)",
+                 "envelope invariant |var| <= 127*(deg+1) over whole layered iterations (end-to-end no-overflow for the 4 HL 8-bit names) not yet proved"],
+    ),
 }
